@@ -40,6 +40,8 @@ type Term struct {
 	str  string   // literal String (bytes 0..255 as code points)
 	vars []string // free variable names (deduplicated lazily)
 	neg  *Term    // cached negation partner for (not x)
+	op   string   // operator and operands of an application (for local simplifications)
+	args []*Term
 }
 
 func (t *Term) String() string { return t.s }
@@ -129,7 +131,7 @@ func app(s Sort, op string, args ...*Term) *Term {
 		b.WriteString(a.s)
 	}
 	b.WriteByte(')')
-	return &Term{S: s, s: b.String(), vars: mergeVars(args...)}
+	return &Term{S: s, s: b.String(), vars: mergeVars(args...), op: op, args: args}
 }
 
 // ---- Bool
@@ -360,6 +362,24 @@ func Concat(a, b *Term) *Term {
 	if b.lit && b.str == "" {
 		return a
 	}
+	// substr(s,o,k) ++ substr(s,o+k,m) = substr(s,o,k+m) for literal o,k,m >= 0
+	// (also at the right end of a longer concatenation)
+	if b.op == "str.substr" && b.args[1].lit && b.args[2].lit {
+		last, rest := a, (*Term)(nil)
+		if a.op == "str.++" && len(a.args) == 2 {
+			rest, last = a.args[0], a.args[1]
+		}
+		if last.op == "str.substr" && last.args[0].s == b.args[0].s && last.args[1].lit && last.args[2].lit {
+			o, k, o2, m := last.args[1].i, last.args[2].i, b.args[1].i, b.args[2].i
+			if o.Sign() >= 0 && k.Sign() >= 0 && m.Sign() >= 0 && new(big.Int).Add(o, k).Cmp(o2) == 0 {
+				joined := Substr(last.args[0], last.args[1], IntLit(new(big.Int).Add(k, m).Int64()))
+				if rest == nil {
+					return joined
+				}
+				return Concat(rest, joined)
+			}
+		}
+	}
 	return app(SStr, "str.++", a, b)
 }
 
@@ -440,6 +460,10 @@ func StrCode(s *Term) *Term {
 func StrFromCode(c *Term) *Term {
 	if c.lit && c.i.IsInt64() && c.i.Int64() >= 0 && c.i.Int64() < 256 {
 		return StrLit(string([]byte{byte(c.i.Int64())}))
+	}
+	// from_code(to_code(x)) = x for |x| <= 1, which a one-character substring is
+	if c.op == "str.to_code" && c.args[0].op == "str.substr" && c.args[0].args[2].lit && c.args[0].args[2].i.IsInt64() && c.args[0].args[2].i.Int64() == 1 {
+		return c.args[0]
 	}
 	return app(SStr, "str.from_code", c)
 }
